@@ -32,7 +32,7 @@ Definition enum_kinds_agree (c : c15_case) : bool :=
 
 Definition chk (c : c15_case) : bool :=
   let nodes := ao_nodes (c15_ana c) in
-  AnaCross.ana_cross (c15_prog c) (c15_ana c) && enum_kinds_agree c &&
+  AnaCross.ana_cross_e (c15_prog c) (c15_enums c) (c15_ana c) && enum_kinds_agree c &&
   (* [returns] evaluated level by level (Properties/C15.v: C15_levels_compute_returns), under its two premises *)
   calls_closed nodes
   && forallb (fun tb => existsb (gty_eqb (fst tb)) (positions nodes)
